@@ -26,6 +26,16 @@ CHECKS = {
    text="SGR: all 256 button codes x M/m x 10x10 coordinate classes (negative, zero, inside, edge, beyond, multi-digit) x 7-bit/8-bit introducer x both button-state flags on two screen sizes; X11: all 2^24 (Cb,Cx,Cy) byte triples in the thorough tier (256x16x16 quick); histories: every sequence up to depth 4 (6 thorough) of press/release/drag/motion/wheel reports per encoding. Expected values come from a decoder written from xterm's ctlseqs, with tcell's button numbering.",
    note="Button masks the statement does not fix (wheel left/right, buttons 8-11, malformed X11 button bytes) are not compared; X11 drag reports appear in histories only while a press is outstanding.",
    design="2/C12"),
+ "C02": dict(level="exploration",
+   technique="exhaustive enumeration of byte strings and token strings x read partitions through the real parser, with parser-state comparison and witness shrinking",
+   text="Per terminal description (quick: one representative per distinct input signature; thorough: every entry): all byte strings over the 27-byte branching alphabet of the parsers up to length 3-4 (thorough 4-5) from the initial state, all strings up to length 9 over a 4-6 byte alphabet (deep OSC 52 logic), all strings up to length 2 (3) from the state after every proper prefix of every token (non-initial start states), and all token strings up to length 3; each under one read, every two-chunk split and byte-wise, comparing events, unconsumed bytes and parser flags after the feeds and after the timeout (nothing may stay buffered), plus compositionality of self-delimiting tokens. Exhaustive within those bounds; witnesses are shrunk to a canonical minimal form.",
+   note="Uses the synchronous verif entry to collectEventsFromInput (same code path as mainLoop, no timers). The all-partitions claim rests on two-chunk splits + full state equality (induction); longer strings than the bounds are not covered.",
+   design="2/C02"),
+ "C11": dict(level="exploration",
+   technique="exhaustive enumeration of every encodable code point of every stateless charset x read partitions through the real parser",
+   text="For each of the 24 stateless charsets (22 registered + US-ASCII + UTF-8): every printable code point that round-trips through the codec (thorough: the whole Unicode range; quick: up to U+2FFFF for UTF-8/GB18030), as a one-character text under one read, every two-chunk split and byte-wise; plus all texts of length <=3 over 8 representatives per charset under every split, bare, inside paste brackets and with focus reports between characters, on entries with and without paste support.",
+   note="x/text and gdamore/encoding codecs define the charsets (trusted base); U+FFFD excluded; ISO-2022-JP and HZ excluded by the statement.",
+   design="2/C11"),
  # --- new checks above this line ---
 }
 
